@@ -342,10 +342,14 @@ impl World {
                 let sparse = kvn(words, "sparse", 0) == 1;
                 let dd = kvn(words, "dd", 0) as u32;
                 let players = kv(words, "players").unwrap_or("");
+                let sparse_first = kvn(words, "ord", 0) == 1;
                 macro_rules! build {
                     ($cfg:ty, $variant:ident) => {{
-                        let mut b = common!(SessionBuilder::<$cfg>::new())
-                            .with_sparse_saving_mode(sparse)
+                        let b0 = SessionBuilder::<$cfg>::new();
+                        let b0 = if sparse_first { b0.with_sparse_saving_mode(sparse) } else { b0 };
+                        let b1 = common!(b0);
+                        let b1 = if sparse_first { b1 } else { b1.with_sparse_saving_mode(sparse) };
+                        let mut b = b1
                             .with_desync_detection_mode(if dd > 0 { DesyncDetection::On { interval: dd } } else { DesyncDetection::Off });
                         for p in players.split(',').filter(|p| !p.is_empty()) {
                             let (h, t) = p.split_once(':').unwrap();
